@@ -1059,4 +1059,52 @@ theorem encrypt_decrypt_roundtrip (P : Prims) (hS : P.Std) (hL : P.LawfulPrims) 
   · rw [(encrypt_decrypt_are_symmetric P alg h ⟨.oct, key⟩ pt ct nonce tag ad).1]; exact h1
   · rw [(encrypt_decrypt_are_symmetric P alg h ⟨.oct, key⟩ pt ct nonce tag ad).2]; exact h3
 
+/-! ## 10. public-key encryption -/
+
+/-- Decryption inverts encryption for every lawful public-key scheme and every name / key kinds the
+two dispatches accept. -/
+theorem pke_decrypt_encrypt {SK PK : Type} (S : PkeScheme SK PK) (hS : S.Lawful) (alg : String)
+    (kindE kindD : KeyKind) (sk : SK) (msg label rand ct : Bytes)
+    (hd : asymOutcome "DecryptPrivateKey" alg kindD = .ok ())
+    (he : encryptPublicKey S alg kindE (S.pub sk) msg label rand = .ok ct) :
+    decryptPrivateKey S alg kindD sk ct label = .ok msg := by
+  unfold encryptPublicKey at he
+  unfold decryptPrivateKey
+  rw [hd]
+  cases ho : asymOutcome "EncryptPublicKey" alg kindE with
+  | ok u => rw [ho] at he; exact hS sk msg label rand ct he
+  | err e => rw [ho] at he; cases he
+  | panic w => rw [ho] at he; cases he
+
+/-- Which keys the encryption names take: every listed name encrypts under an RSA key (public, or
+private through `key.PublicKey()`) and decrypts under an RSA private key ONLY — a public key, or any
+other kind, yields `ErrKeyTypeMismatch`. -/
+theorem pke_dispatch_rsa :
+    ∀ alg ∈ Generated.C03.supportedAsymmetric,
+      asymOutcome "EncryptPublicKey" alg .rsaPub = .ok () ∧ asymOutcome "EncryptPublicKey" alg .rsaPriv = .ok () ∧
+      ∀ k ∈ listedKinds,
+        (asymOutcome "DecryptPrivateKey" alg k = .ok () ↔ k = .rsaPriv) ∧
+        (k ≠ .rsaPriv → asymOutcome "DecryptPrivateKey" alg k = .err eKeyTypeMismatch) := by
+  decide
+
+open Kit.Crypto in
+/-- The RSA encryption schemes of `Kit.Crypto.Rsa` are lawful under the key equation, so
+`pke_decrypt_encrypt` has concrete instances. -/
+theorem rsa_pke_lawful : rsaPkcs1v15Pke.Lawful ∧ ∀ h : RsaHash, (rsaOaepPke h).Lawful := by
+  refine ⟨?_, fun h => ?_⟩
+  · intro key m l r c he
+    simp only [rsaPkcs1v15Pke] at he ⊢
+    cases hc : rsaEncryptPkcs1v15 key.n key.e m r with
+    | none => rw [hc] at he; cases he
+    | some c' =>
+      rw [hc] at he; injection he with he; subst he
+      rw [rsaDecryptPkcs1v15_encrypt key m r c' hc]
+  · intro key m l r c he
+    simp only [rsaOaepPke] at he ⊢
+    cases hc : rsaEncryptOaep key.n key.e h l m r with
+    | none => rw [hc] at he; cases he
+    | some c' =>
+      rw [hc] at he; injection he with he; subst he
+      rw [rsaDecryptOaep_encrypt key h l m r c' hc]
+
 end Kit.CryptoGlue
